@@ -58,7 +58,32 @@ def request_of(case):
     return "%d %d 5 %s" % (case["W"], 1 if case["first"] else 0, "/".join(line_field(l) for l in lines) or "-")
 
 
+class Hang(BaseException):
+    """the real code did not return within the time limit (textwrap loops forever when an indent exceeds the width)"""
+
+
+def time_limit(seconds, fn, *a):
+    import signal
+
+    def on_alarm(sig, frm):
+        raise Hang()
+    old = signal.signal(signal.SIGALRM, on_alarm)
+    signal.setitimer(signal.ITIMER_REAL, seconds)
+    try:
+        return fn(*a)
+    finally:
+        signal.setitimer(signal.ITIMER_REAL, 0)
+        signal.signal(signal.SIGALRM, old)
+
+
 def real_wrap(case):
+    try:
+        return time_limit(4.0, _real_wrap, case)
+    except Hang:
+        return "Hang"
+
+
+def _real_wrap(case):
     """the real wrapper; [before] = a width for which something else is wrapped first in the same process: the
     result must not depend on it"""
     from montepy.mcnp_object import MCNP_Object
@@ -346,8 +371,10 @@ def check_problem(case, stats=None):
         apply_edits(pr, case["edits"])
         outs = {}
         for W in case.get("order") or [128, 80]:
-            outs[W] = mp.write_problem(pr, "o%d.i" % W, VERSIONS[W])
+            outs[W] = time_limit(20.0, mp.write_problem, pr, "o%d.i" % W, VERSIONS[W])
         out128, out80 = outs[128], outs[80]
+    except Hang:
+        return {"kind": "write-hangs", "detail": "write_to_file did not return within 20 s"}
     except Exception as e:
         if stats is not None:
             stats["write_failed"] += 1
